@@ -177,15 +177,39 @@ def racing_directory(registry_root):
     return asset.Directory(Racing(registry_root))
 
 
+def faulty_directory(registry_root):
+    """Registry whose first state read runs out of file descriptors inside the real read (EMFILE from open())."""
+    import resource
+    from forml.io import asset
+    from forml.provider.registry.filesystem import posix
+    fresh_directory(registry_root)
+
+    class Faulty(posix.Registry):
+        fired = False
+
+        def read(self, project, release, generation, sid):
+            if Faulty.fired:
+                return super().read(project, release, generation, sid)
+            Faulty.fired = True
+            soft, hard = resource.getrlimit(resource.RLIMIT_NOFILE)
+            resource.setrlimit(resource.RLIMIT_NOFILE, (3, hard))
+            try:
+                return super().read(project, release, generation, sid)
+            finally:
+                resource.setrlimit(resource.RLIMIT_NOFILE, (soft, hard))
+
+    return asset.Directory(Faulty(registry_root))
+
+
 def step(registry_root, op, generation, window='none'):
     """One lifecycle action with everything rebuilt (instance, project components, expansion). Returns observation."""
     from forml.io import asset
     from forml.provider.runner import pyfunc
     from harness import graphs
     graphs.reset_ports()
-    race = op.endswith('-race')
-    op = op.replace('-race', '')
-    directory = racing_directory(registry_root) if race else fresh_directory(registry_root)
+    race, fault = op.endswith('-race'), op.endswith('-fault')
+    op = op.replace('-race', '').replace('-fault', '')
+    directory = racing_directory(registry_root) if race else faulty_directory(registry_root) if fault else fresh_directory(registry_root)
     instance = asset.Instance(project=PROJECT, release=RELEASE, generation=generation or None, registry=directory)
     values = []
     feed = sym_feed()
